@@ -20,8 +20,9 @@ from . import std_specs as S
 HEADER = S.CRATE_ATTRS + r'''// GENERATED on every run by /verif/bin/vcheck -- do not edit.  Executable items below are extracted
 // verbatim from the working tree; ghost insertions are wrapped in /*@G<*/ ... /*@G>*/ markers.
 use vstd::prelude::*;
-use std::io::{self, Read};
+use std::io::{self, BufRead, Read};
 use std::mem;
+use vstd::string::StringSliceAdditionalSpecFns;
 verus! {
 global size_of usize == 8;
 ''' + S.IO_TRAITS + r'''
@@ -69,6 +70,58 @@ pub fn io_error_new<E>(kind: std::io::ErrorKind, error: E) -> (r: std::io::Error
 { unimplemented!() }
 #[verifier::external_type_specification]
 pub struct ExErrorKind(std::io::ErrorKind);
+
+// ---- crate-level stand-ins used by yaml::transcode_reader (ASSUMED contracts) ----
+#[verifier::external_body]
+pub struct Error { _e: () }
+pub type Result<T, E = Error> = std::result::Result<T, E>;
+impl From<std::io::Error> for Error { #[verifier::external_body] fn from(e: std::io::Error) -> Self { unimplemented!() } }
+pub mod serde {
+    pub mod de { pub trait Error {} pub trait Deserializer<'de> { type Error; } }
+    pub mod ser { pub trait Serialize {} }
+}
+use serde::{de, ser};
+pub mod serde_yaml {
+    use vstd::prelude::*;
+    use vstd::string::StringSliceAdditionalSpecFns;
+    #[verifier::external_body] pub struct Error { _e: () }
+    impl super::de::Error for Error {}
+    #[verifier::external_body] pub struct Deserializer<'de> { _d: std::marker::PhantomData<&'de str> }
+    // the text a document deserializer was built over
+    pub uninterp spec fn yd_src<'de>(d: &Deserializer<'de>) -> Seq<u8>;
+    impl<'de> Deserializer<'de> {
+        #[verifier::external_body]
+        pub fn from_str(s: &'de str) -> (d: Self)
+            ensures yd_src(&d) == s.spec_bytes(),
+        { unimplemented!() }
+    }
+    impl<'de> super::de::Deserializer<'de> for Deserializer<'de> { type Error = Error; }
+}
+pub uninterp spec fn de_src<D>(d: &D) -> Seq<u8>;
+#[verifier::external_body]
+pub broadcast proof fn axiom_de_src_yaml<'de>(d: &serde_yaml::Deserializer<'de>)
+    ensures #[trigger] de_src::<serde_yaml::Deserializer<'de>>(d) == serde_yaml::yd_src(d),
+{ }
+// ghost log of an output: the byte strings of the documents offered so far
+pub uninterp spec fn out_log<O: ?Sized>(o: &O) -> Seq<Seq<u8>>;
+trait Output {
+    fn transcode_from<'de, D, E>(&mut self, de: D) -> (r: Result<()>)
+    where
+        D: de::Deserializer<'de, Error = E>,
+        E: de::Error + Send + Sync + 'static,
+        ensures out_log(final(self)) == out_log(old(self)).push(de_src(&de)),
+    ;
+    fn transcode_value<S>(&mut self, value: S) -> Result<()>
+    where
+        S: ser::Serialize;
+    fn flush(&mut self) -> std::io::Result<()>;
+}
+#[verifier::external_trait_specification]
+pub trait ExBufRead: std::io::Read {
+    type ExternalTraitSpecificationFor: std::io::BufRead;
+    fn fill_buf(&mut self) -> (r: std::io::Result<&[u8]>);
+    fn consume(&mut self, amt: usize);
+}
 
 // the extracted items live in the module they come from, so that `pub(super)` keeps its meaning
 pub mod yaml { use super::*; pub mod chunker { use super::*;
@@ -317,6 +370,41 @@ CR_READ_SPEC = '''ensures final(buf)@.len() == old(buf)@.len(),
         r is Err ==> final(self).captured@ == old(self).captured@,'''
 CR_NEW_SPEC = 'ensures r.reader == reader, r.captured@.len() == 0, r.captured_start_offset == 0,'
 
+YAML_RS_OPEN = r'''
+pub mod yaml_rs {
+    use super::*;
+    // stand-in for yaml::encoding::Encoder::from_reader (U-ENC-V / U-ENC-R cover the re-encoder): some reader, or an error
+    #[verifier::external_body]
+    #[verifier::reject_recursive_types(R)]
+    pub struct EncodedReader<R> { _r: std::marker::PhantomData<R> }
+    #[verifier::external]
+    impl<R: BufRead> Read for EncodedReader<R> { fn read(&mut self, buf: &mut [u8]) -> io::Result<usize> { unimplemented!() } }
+    #[verifier::external_body]
+    #[verifier::reject_recursive_types(R)]
+    pub struct Encoder<R> { _r: std::marker::PhantomData<R> }
+    impl<R: BufRead> Encoder<R> {
+        #[verifier::external_body]
+        pub fn from_reader(reader: R) -> io::Result<EncodedReader<R>> { unimplemented!() }
+    }
+    // the bytes of the k-th document of the chunker's event history, cut out of the stream it has read
+    spec fn doc_bytes<R: Read>(c: &Chunker<R>, k: int) -> Seq<u8> {
+        let d = docs_of(p_hist(&c.parser))[k];
+        p_stream(&c.parser).subrange(d.0 as int, d.1 as int)
+    }
+'''
+# C03 (YAML reader path): every document the chunker emits is offered to the output, once, in order, with exactly its
+# bytes; when the chunker is exhausted every document of the stream has been offered
+TR_FOR = (r'let ghost mut offered: Seq<Seq<u8>> = Seq::empty(); '
+          r'let mut verus_iter = \2; loop invariant verus_iter.inv(), out_log(&output) == log0 + offered, offered.len() == verus_iter.emitted(), ensures all_offered, '
+          r'{ broadcast use axiom_de_src_yaml; let ghost em0 = verus_iter.emitted(); '
+          r'let \1 = match verus_iter.next() { None => { proof { all_offered = true; assert(verus_iter.emitted() == docs_of(p_hist(&verus_iter.parser)).len()); } break }, Some(verus_item) => verus_item };')
+TR_AFTER_OFFER = '''proof {
+    // what was just offered is exactly the bytes of document number em0 of the stream
+    offered = offered.push(str_bytes(doc.content));
+    assert(offered.last() == doc_bytes(&verus_iter, em0));
+    assert(log0 + offered =~= (log0 + offered.drop_last()).push(offered.last()));
+}'''
+TR_END = '''proof { assert(all_offered); }'''
 SRC = 'repo:src/yaml/chunker.rs'
 CRI = r'\bimpl\s*<R>\s+ChunkReader\s*<R>'
 CRR = r'\bimpl\s*<R>\s+Read\s+for\s+ChunkReader\s*<R>'
@@ -351,9 +439,20 @@ ITEMS = [
                                 dict(after=r'\.\s*take_to_offset\s*\([^;]*;', text=AFTER_TAKE)],
                        loops=[dict(ordinal=0, kind='loop', clauses=NEXT_LOOP_INV)])),
     dict(raw='}'),
-    dict(raw='impl Document {\n    pub closed spec fn kind_v(&self) -> int { kind_code(self.kind) }'),
+    dict(raw='impl Document {\n    pub closed spec fn kind_v(&self) -> int { kind_code(self.kind) }\n    pub closed spec fn content_v(&self) -> Seq<u8> { str_bytes(self.content) }'),
     dict(src=SRC, kind='fn', name='is_collection', within_impl=DOCI,
          contract=dict(ret='r', spec='ensures r == (self.kind_v() == 2),')),
+    dict(src=SRC, kind='fn', name='content', within_impl=DOCI, mode='external_body',
+         contract=dict(ret='r', spec='ensures r.spec_bytes() == self.content_v(),')),   # `&self.content` (String -> &str deref): assumed
+    dict(raw='}'),
+    # ---- src/yaml.rs: the reader loop that feeds the chunks to the output (in a child module so that it sees Chunker) ----
+    dict(raw=YAML_RS_OPEN),
+    dict(src='repo:src/yaml.rs', kind='fn', name='transcode_reader',
+         contract=dict(ret='r', spec='ensures true,', attrs=['#[verifier::exec_allows_no_decreases_clause]'],   # termination: the stream ends (libyaml); not proved
+                       prologue='let ghost log0 = out_log(&output); let ghost mut all_offered = false;',
+                       rewrites=[dict(find=r'for\s+(\w+)\s+in\s+([^{]+?)\s*\{', to=TR_FOR, expand=True)],
+                       inserts=[dict(before=r'Ok\(\(\)\)\s*\}\s*$', text=TR_END)],
+                       inserts_all=[dict(after=r'output\s*\.\s*transcode_from\s*\([^;]*;', text=TR_AFTER_OFFER)])),
     dict(raw='}'),
 ]
 
